@@ -29,7 +29,8 @@ def handle (quirks : List String) (op : String) (args : List String) : String :=
   match op, args with
   | "c25", [hs] =>
     let s := (Proto.stringOfHex hs).toList
-    let q : LexQuirks := { symbolEscapeRaw := quirks.contains "symbolEscapeRaw" }
+    let q : LexQuirks := { symbolEscapeRaw := quirks.contains "symbolEscapeRaw",
+                           quotedVerbatim := quirks.contains "quotedVerbatim" }
     answer q (quirks.contains "ruleSigilEscapeNotFirst") s ++ "\t" ++ answer lexSpec false s
   | _, _ => "bad-op"
 
